@@ -836,10 +836,78 @@ def run(ctx):
     histories += [gen_history(ctx.rng, pool="close" if i % 5 == 4 else "plain", feeds=True) for i in range(ctx.scale(1200, 6000))]
     run_batch(ctx, histories, seeds)
     dedupe(ctx)
+    own_equality_stream(ctx, ctx.scale(1500, 8000))  # round 7, drawn last
+
+
+def own_equality_case(seed):
+    """Names of several kinds side by side: the integers 1 … 12 and their decimal strings are DIFFERENT names (`3 != "3"`), so
+    they are different projects and ballots over them are different ballots.  The multiprofile is judged by the library's own
+    equality of the ballots as cast: multiplicity(frozen b) = number of voters whose ballot == b; one entry per class of equal
+    ballots; frozen ballots that compare equal hash alike (round 7, C16-r7B: `Project.__eq__` / `__hash__` through `str(name)`
+    while `__lt__` compares the raw names).  Returns a violation or None."""
+    import pabutools.election as e
+
+    r = random.Random(seed)
+    ids = r.sample(range(1, 13), r.randint(2, 5))
+    kind = r.choice(["app", "card"])
+    mk = {}
+    voters = []
+    for _ in range(r.randint(2, 6)):
+        sub = r.sample(ids, r.randint(1, len(ids)))
+        as_int = r.random() < 0.5
+        names = [i if as_int else str(i) for i in sub]
+        ps = [mk.setdefault(nm, e.Project(nm, 1)) for nm in names]
+        r.shuffle(ps)
+        voters.append(e.ApprovalBallot(ps) if kind == "app" else e.CardinalBallot({p: 1 + (int(p.name) % 3) for p in ps}))
+    try:
+        prof = (e.ApprovalProfile if kind == "app" else e.CardinalProfile)(voters)
+        M = prof.as_multiprofile()
+        frozen = [b.frozen() for b in voters]
+        classes = []
+        for i, b in enumerate(voters):
+            for c in classes:
+                if voters[c[0]] == b:
+                    c.append(i)
+                    break
+            else:
+                classes.append([i])
+        desc = f"{kind} ballots {[sorted(map(repr, (p.name for p in b))) for b in voters]}"
+        if len(M) != len(classes):
+            return {"what": f"{desc}: {len(classes)} classes of equal ballots (the library's ==) but {len(M)} multiprofile entries", "case": None,
+                    "cfg": {"own_equality_seed": seed}, "sig": {"kind": "own_equality", "clause": "entries"}}
+        for c in classes:
+            m = M.multiplicity(frozen[c[0]])
+            if m != len(c):
+                return {"what": f"{desc}: voters {c} cast equal ballots (the library's ==) but the multiplicity of that ballot is {m}", "case": None,
+                        "cfg": {"own_equality_seed": seed}, "sig": {"kind": "own_equality", "clause": "multiplicity"}}
+        for i in range(len(frozen)):
+            for j in range(i):
+                if frozen[i] == frozen[j] and hash(frozen[i]) != hash(frozen[j]):
+                    return {"what": f"{desc}: the frozen ballots of voters {j} and {i} are equal and hash differently", "case": None,
+                            "cfg": {"own_equality_seed": seed}, "sig": {"kind": "own_equality", "clause": "hash"}}
+                if (frozen[i] == frozen[j]) != (voters[i] == voters[j]):
+                    return {"what": f"{desc}: voters {j} and {i}: the ballots are {'equal' if voters[i] == voters[j] else 'different'}, their frozen forms are not", "case": None,
+                            "cfg": {"own_equality_seed": seed}, "sig": {"kind": "own_equality", "clause": "freeze_eq"}}
+    except Exception as ex:  # noqa: BLE001
+        return {"what": f"int- and str-named projects side by side: {type(ex).__name__}: {ex}", "case": None, "cfg": {"own_equality_seed": seed},
+                "sig": {"kind": "own_equality", "err": type(ex).__name__}}
+    return None
+
+
+def own_equality_stream(ctx, n):
+    hits = 0
+    for _ in range(n):
+        v = own_equality_case(ctx.rng.getrandbits(48))
+        ctx.evaluations += 1
+        ctx.count("stream", "names of two kinds (int / str) side by side")
+        if v is not None and hits < 3:
+            hits += 1
+            ctx.violations.append(v)
 
 
 def search(ctx, disagreements):
     ctx.rule = RULE
+    own_equality_stream(ctx, 4000)
     seeds = pick_seeds(ctx.rng, 3)
     histories = [gen_history(ctx.rng) for _ in range(3000)] + [gen_history(ctx.rng, pool="close") for _ in range(1000)] + [gen_history(ctx.rng, feeds=True) for _ in range(3000)]
     run_batch(ctx, histories, seeds, compare=False)
@@ -847,6 +915,9 @@ def search(ctx, disagreements):
 
 
 def replay(payload):
+    if payload.get("cfg", {}).get("own_equality_seed") is not None:
+        v = own_equality_case(payload["cfg"]["own_equality_seed"])
+        return (False, "still fails: " + v["what"]) if v else (True, "the multiprofile follows the library's own equality of the ballots on the replayed voters")
     h = payload["case"]
     seed = payload.get("cfg", {}).get("hashseed", 0)
     outs = run_workers([h], [seed])
